@@ -76,6 +76,21 @@ def run(ck, facts, tier):
                 ck.violation(R, inst, fb_.where(c.get("ln")), "obligations are added outside push_obligation: they bypass needs_truncation")
     ck.floor(R, "writes-to-Fulfill.obligations", n, 2)
 
+    R = "C09.FLOUNDERED-TABLE-IS-EMPTY"
+    ck.rule(R, "K2 (field coverage): Table::mark_floundered leaves a table that yields nothing any more - it sets `floundered` and empties "
+               "both the answers and the pending strands.  make_solution keeps pulling while Forest::any_future_answer sees a cached "
+               "answer or a pending strand; a floundered root table that keeps stale strands answers `Floundered` forever and the "
+               "aggregation loop (which the caller's continue-callback cannot interrupt there) never ends")
+    mf = need_body(ck, facts, R, "chalk_engine::table::Table::mark_floundered")
+    if mf:
+        from kit import mutated_self_fields
+        touched = mutated_self_fields(facts.thir("chalk_engine::table::Table::mark_floundered"), "Table")
+        for fld in ("floundered", "answers", "strands"):
+            if fld in touched:
+                ck.ok(R, "mark_floundered:resets:%s" % fld)
+            else:
+                ck.violation(R, "mark_floundered:resets:%s" % fld, mf.where(), "Table.%s survives mark_floundered" % fld)
+
     R = "C09.SELECTED-NOT-FLOUNDERED"
     ck.rule(R, "K3 (justifies an engine assertion): on_subgoal_selected asserts that the selected subgoal's table has not floundered; a "
                "table can flounder *after* it was selected (pursue_answer marks it when an answer exceeds the size limit), so "
